@@ -5,6 +5,13 @@
 (***************************************************************************)
 EXTENDS TraceIO, FiniteSets
 
+MetaTables == {"_grist_DocInfo", "_grist_Tables", "_grist_Tables_column", "_grist_Imports",
+  "_grist_External_database", "_grist_External_table", "_grist_TableViews", "_grist_TabItems",
+  "_grist_TabBar", "_grist_Pages", "_grist_Views", "_grist_Views_section", "_grist_Views_section_field",
+  "_grist_Validations", "_grist_REPL_Hist", "_grist_Attachments", "_grist_Triggers", "_grist_ACLRules",
+  "_grist_ACLResources", "_grist_ACLPrincipals", "_grist_ACLMemberships", "_grist_Filters",
+  "_grist_Cells", "_grist_Shares"}
+
 MT == "_grist_Tables"
 MC == "_grist_Tables_column"
 
@@ -56,5 +63,117 @@ SchemaDiff(o, sch) ==
             \cup (IF Orphans(o) = {} THEN {} ELSE {"orphans"})
 
 SchemaMatchesMeta(o, sch) == SchemaDiff(o, sch) = {}
+
+(***************************************************************************)
+(* Generic helpers over observed tables                                    *)
+(***************************************************************************)
+Idx(o, t) == 1..Len(o[t].rows)
+Cell(o, t, c, i) == o[t].cols[c][i]
+IsMeta(o, t) == t \in DOMAIN o /\ "base" \in DOMAIN o[t] /\ t \in MetaTables
+RefColsOf(o, t) == {c \in DOMAIN o[t].cols : o[t].ref[c] # "" /\ o[t].ref[c] \in DOMAIN o}
+DataRefColsOf(o, t) == {c \in RefColsOf(o, t) : ~o[t].isf[c]}
+RowIdx(o, t, r) == CHOOSE i \in Idx(o, t) : o[t].rows[i] = r
+
+(***************************************************************************)
+(* C09: metadata references always resolve                                 *)
+(***************************************************************************)
+\* every reference cell of every metadata table is 0/empty or points at an existing record
+DanglingMetaRefs(o) ==
+  UNION {UNION {{<<t, c, o[t].rows[i]>> : i \in {k \in Idx(o, t) :
+                     \E v \in IntSet(Cell(o, t, c, k)) : v # 0 /\ v \notin RowSet(o, o[t].ref[c])}}
+                : c \in RefColsOf(o, t)}
+         : t \in {x \in DOMAIN o : x \in MetaTables}}
+
+\* references that may not be null
+NonNull == {<<"_grist_Tables_column", "parentId">>, <<"_grist_Views_section_field", "parentId">>,
+            <<"_grist_Views_section_field", "colRef">>, <<"_grist_Views_section", "tableRef">>,
+            <<"_grist_Tables", "rawViewSectionRef">>, <<"_grist_TabBar", "viewRef">>,
+            <<"_grist_Pages", "viewRef">>}
+NullMetaRefs(o) ==
+  UNION {{<<p[1], p[2], o[p[1]].rows[i]>> : i \in {k \in Idx(o, p[1]) : IntOf(Cell(o, p[1], p[2], k)) = 0}}
+         : p \in {q \in NonNull : q[1] \in DOMAIN o /\ q[2] \in DOMAIN o[q[1]].cols}}
+
+\* a field shows a column of its section's table
+FieldColMismatch(o) ==
+  LET F == "_grist_Views_section_field"  S == "_grist_Views_section"
+  IN IF ~(F \in DOMAIN o /\ S \in DOMAIN o /\ MC \in DOMAIN o) THEN {}
+     ELSE {o[F].rows[i] : i \in {k \in Idx(o, F) :
+             LET sref == IntOf(Cell(o, F, "parentId", k))
+                 cref == IntOf(Cell(o, F, "colRef", k))
+             IN /\ sref \in RowSet(o, S) /\ cref \in RowSet(o, MC)
+                /\ IntOf(Cell(o, S, "tableRef", RowIdx(o, S, sref)))
+                     # IntOf(Cell(o, MC, "parentId", RowIdx(o, MC, cref)))}}
+
+\* exactly one metadata record per user table of engine.schema (sch is keyed by tableId tokens)
+TableRecordMismatch(o, sch) ==
+  IF MT \notin DOMAIN o THEN {"no-meta"}
+  ELSE LET T == o[MT]
+           Count(tt) == Cardinality({i \in 1..Len(T.rows) : T.cols.tableId[i] = tt})
+       IN {tt \in (DOMAIN sch) \cup {T.cols.tableId[i] : i \in 1..Len(T.rows)} :
+             tt \notin DOMAIN sch \/ Count(tt) # 1}
+
+\* display / rule helper columns are still used by a column, field or section
+\* (HelperKind[colIdToken] is the judgement-free prefix classification done by the harness)
+HelperKind == IF "helpers" \in DOMAIN File THEN File.helpers ELSE <<>>
+UnusedHelpers(o) ==
+  IF ~(MC \in DOMAIN o) THEN {} ELSE
+  LET C == o[MC]
+      F == "_grist_Views_section_field"
+      S == "_grist_Views_section"
+      Used(col, t) == IF t \in DOMAIN o /\ col \in DOMAIN o[t].cols
+                      THEN UNION {IntSet(o[t].cols[col][i]) : i \in Idx(o, t)} ELSE {}
+      displayUsed == Used("displayCol", MC) \cup Used("displayCol", F)
+      rulesUsed == Used("rules", MC) \cup Used("rules", F) \cup Used("rules", S)
+  IN {C.rows[j] : j \in {k \in 1..Len(C.rows) :
+        LET kind == IF C.cols.colId[k] \in DOMAIN HelperKind THEN HelperKind[C.cols.colId[k]] ELSE ""
+        IN \/ (kind = "display" /\ C.rows[k] \notin displayUsed)
+           \/ (kind = "rule" /\ C.rows[k] \notin rulesUsed)}}
+
+(***************************************************************************)
+(* C20 (document part): position columns hold pairwise distinct values     *)
+(***************************************************************************)
+PosCols(o, t) == {c \in DOMAIN o[t].cols : o[t].base[c] \in {"ManualSortPos", "PositionNumber"} /\ ~o[t].isf[c]}
+BadPositions(o, S) ==
+  {<<t, c>> \in UNION {{<<t2, c2>> : c2 \in PosCols(o, t2)} : t2 \in S \cap DOMAIN o} :
+     LET col == o[t].cols[c]
+     IN \E i, j \in 1..Len(col) : i < j /\ col[i] = col[j]}
+
+(***************************************************************************)
+(* C10: removing rows leaves no references to them (action property:      *)
+(* pre-state p, post-state o)                                              *)
+(***************************************************************************)
+Removed(p, o, t) == IF t \in DOMAIN p THEN RowSet(p, t) \ (IF t \in DOMAIN o THEN RowSet(o, t) ELSE {}) ELSE {}
+
+\* data Ref / RefList cells that pointed at a removed row before the call and still do
+StillPointing(p, o, S) ==
+  UNION {UNION {{<<t, c, o[t].rows[i]>> : i \in {k \in Idx(o, t) :
+                    LET r == o[t].rows[k]
+                        tgt == o[t].ref[c]
+                        rem == Removed(p, o, tgt)
+                    IN /\ rem # {}
+                       /\ r \in RowSet(p, t)
+                       /\ c \in DOMAIN p[t].cols
+                       /\ IntSet(Cell(o, t, c, k)) \cap rem # {}
+                       /\ IntSet(Cell(p, t, c, RowIdx(p, t, r))) \cap rem # {}}}
+                : c \in {d \in DataRefColsOf(o, t) : t \in DOMAIN p}}
+         : t \in S \cap DOMAIN o}
+
+\* RefList cells that contained removed rows must keep their other ids in order (None when empty),
+\* judged only for calls that request nothing but removals
+FilterSeq(s, rem) == SelectSeq(s, LAMBDA x : x \notin rem)
+BadRefListCleanup(p, o, S) ==
+  UNION {UNION {{<<t, c, o[t].rows[i]>> : i \in {k \in Idx(o, t) :
+                    LET r == o[t].rows[k]
+                        rem == Removed(p, o, o[t].ref[c])
+                    IN /\ rem # {}
+                       /\ r \in RowSet(p, t)
+                       /\ c \in DOMAIN p[t].cols
+                       /\ LET before == Cell(p, t, c, RowIdx(p, t, r))
+                              after == Cell(o, t, c, k)
+                          IN /\ IsIntList(before) /\ IntSet(before) \cap rem # {}
+                             /\ ~( IF FilterSeq(IntsOf(before), rem) = <<>> THEN after = "n"
+                                   ELSE IsIntList(after) /\ IntsOf(after) = FilterSeq(IntsOf(before), rem))}}
+                : c \in {d \in DataRefColsOf(o, t) : t \in DOMAIN p /\ o[t].base[d] = "RefList"}}
+         : t \in S \cap DOMAIN o}
 
 =============================================================================
